@@ -799,6 +799,8 @@ soxr_error_t soxr_process(soxr_t p,
 
   if (!out && !in)
     idone = ilen;
+  else if (p->error)            /* Sticky, as in soxr_input & soxr_output. */
+    idone = 0;
   else if (p->io_spec.itype & p->io_spec.otype & SOXR_SPLIT) { /* Both i & o */
 #if defined _OPENMP
     int i;
